@@ -334,7 +334,8 @@ namespace cnl {
                 using traits = operator_overflow_traits<shift_left_op, Lhs, Rhs>;
                 return lhs < 0 ? rhs > 0 ? rhs < traits::positive_digits
                                                  ? (lhs >> (traits::positive_digits - rhs)) != -1
-                                                 : true
+                                                 // -1 << digits is the (representable) lowest value
+                                                 : (rhs != traits::positive_digits || lhs != -1)
                                          : false
                                : false;
             }
